@@ -90,6 +90,11 @@ func NewPoWConsensus(cCtx context.ConsensusCtx, cCfg def.ConsensusConfig) base.C
 	if target > 256 {
 		pow.bitcoinFlag = true
 	}
+	// refreshDifficulty below compares with maxDifficulty
+	pow.maxDifficulty = big.NewInt(int64(config.MaxTarget))
+	if pow.bitcoinFlag {
+		pow.maxDifficulty, _, _ = SetCompact(config.MaxTarget)
+	}
 	// 重启时需要重新更新目标target
 	tipBlock := cCtx.Ledger.GetTipBlock()
 	if tipBlock.GetHeight() > cCfg.StartHeight {
